@@ -357,9 +357,20 @@ static void c08_case(uint64_t idx)
 	for (unsigned i = 0; i < nseg; ++i) for (unsigned j = i + 1; j < nseg; ++j) if (cut[j] < cut[i]) { size_t t = cut[i]; cut[i] = cut[j]; cut[j] = t; }
 	for (unsigned i = 0; i < nseg; ++i) { unsigned a = vrng_below(&r, 10); act[i] = a < 3 ? LZMA_RUN : (a < 7 ? LZMA_FULL_FLUSH : LZMA_FULL_BARRIER); upd[i] = vrng_chance(&r, 1, 5); }
 	int lifecycle = vrng_chance(&r, 1, 5) ? 1 + (int)vrng_below(&r, 3) : 0;   // 1 early end, 2 re-init same threads, 3 re-init other threads
+	// 4: one allocation (or every one from some point on) fails, usually inside a worker thread: the call that notices
+	// must return LZMA_MEM_ERROR - never block - and lzma_end() must give everything back
+	if (!lifecycle && vrng_chance(&r, 1, 8)) lifecycle = 4;
+	alloc_mon mon; alloc_mon_init(&mon);
+	if (lifecycle == 4) {
+		static const uint32_t span[] = { 12, 40, 40, 150 };
+		uint32_t kk = 1 + vrng_below(&r, span[vrng_below(&r, 4)]);
+		if (vrng_chance(&r, 2, 3)) mon.fail_at = kk; else mon.fail_from = kk;
+	}
+	bool faulted = false;
 	enc_run e; memset(&e, 0, sizeof(e)); vrng_init(&e.pr, vrng_u64(&r), 1, 2, 3);
+	if (lifecycle == 4) e.s.allocator = &mon.a;
 	e.tiny = vrng_chance(&r, 1, 8) && total < 20000; e.timeout = timeout;
-	e.end_after = lifecycle ? (int64_t)(1 + vrng_below(&r, 30)) : -1;
+	e.end_after = (lifecycle >= 1 && lifecycle <= 3) ? (int64_t)(1 + vrng_below(&r, 30)) : -1;
 	hx_sample("c08 cfg=%s kind=%s total=%zu threads=%u bs=%" PRIu64 " timeout=%u segs=%u lifecycle=%d", cfg.desc, gd_names[kind], total, threads, bs, timeout, nseg, lifecycle);
 	char key[200]; char hist[700]; size_t hw = 0; hist[0] = 0;
 	uint64_t ev0[12]; for (int v = 0; v < 11; ++v) ev0[v] = mte(v);
@@ -370,13 +381,15 @@ static void c08_case(uint64_t idx)
 	size_t want_bound[12]; unsigned nbound = 0; size_t last_full = 0;
 	vbuf dec = {0};
 	vcfg newcfg; bool newcfg_valid = false;
-	if (ret != LZMA_OK) { snprintf(key, sizeof(key), "init-failed|mt_enc"); hx_violation("C08", key, idx, "init returned %s; cfg=%s", lzma_ret_name(ret), cfg.desc); failed = true; }
+	if (lifecycle == 4 && ret == LZMA_MEM_ERROR) { faulted = true; failed = true; }
+	else if (ret != LZMA_OK) { snprintf(key, sizeof(key), "init-failed|mt_enc"); hx_violation("C08", key, idx, "init returned %s; cfg=%s", lzma_ret_name(ret), cfg.desc); failed = true; }
 	for (unsigned i = 0; i < nseg && !failed && !e.ended_early; ++i) {
 		size_t n = cut[i] - e.fed;
 		hw += (size_t)snprintf(hist + hw, hw < sizeof(hist) ? sizeof(hist) - hw : 0, "[%zu,a=%d]", n, act[i]); if (hw >= sizeof(hist)) hw = sizeof(hist) - 1;
 		ret = enc_feed(&e, in.p, n, (lzma_action)act[i]);
 		hx_eval();
 		if (e.ended_early) break;
+		if (lifecycle == 4 && ret == LZMA_MEM_ERROR) { faulted = true; failed = true; break; }
 		if (act[i] == LZMA_RUN) { if (ret != LZMA_OK) { hx_violation("C08", "run-failed|mt_enc", idx, "LZMA_RUN returned %s; cfg=%s script %s", lzma_ret_name(ret), cfg.desc, hist); failed = true; } continue; }
 		if (ret != LZMA_STREAM_END) { snprintf(key, sizeof(key), "flush-failed|mt_enc|a=%d", act[i]); hx_violation("C08", key, idx, "action %d returned %s; cfg=%s threads=%u bs=%" PRIu64 " script %s", act[i], lzma_ret_name(ret), cfg.desc, threads, bs, hist); failed = true; break; }
 		if (act[i] == LZMA_FULL_FLUSH) {
@@ -399,6 +412,7 @@ static void c08_case(uint64_t idx)
 			if (newcfg_valid) vcfg_free(&newcfg);
 			gen_cfg(&r, &newcfg, VCFG_ALLOW_DELTA, 1u << 18); newcfg_valid = true;
 			lzma_ret ur = lzma_filters_update(&e.s, newcfg.filters);
+			if (lifecycle == 4 && ur == LZMA_MEM_ERROR) { faulted = true; failed = true; break; }
 			if (ur != LZMA_OK) { hx_violation("C08", "filters-update-refused-between-blocks", idx, "lzma_filters_update after a completed flush returned %s; script %s", lzma_ret_name(ur), hist); failed = true; }
 			else hx_count("filter_updates", 1);
 		}
@@ -406,7 +420,8 @@ static void c08_case(uint64_t idx)
 	if (!failed && !e.ended_early) {
 		ret = enc_feed(&e, in.p, total - e.fed, LZMA_FINISH);
 		hx_eval();
-		if (!e.ended_early && ret != LZMA_STREAM_END) { hx_violation("C08", "finish-failed|mt_enc", idx, "LZMA_FINISH returned %s; cfg=%s threads=%u bs=%" PRIu64 " script %s", lzma_ret_name(ret), cfg.desc, threads, bs, hist); failed = true; }
+		if (lifecycle == 4 && ret == LZMA_MEM_ERROR) { faulted = true; failed = true; }
+		else if (!e.ended_early && ret != LZMA_STREAM_END) { hx_violation("C08", "finish-failed|mt_enc", idx, "LZMA_FINISH returned %s; cfg=%s threads=%u bs=%" PRIu64 " script %s", lzma_ret_name(ret), cfg.desc, threads, bs, hist); failed = true; }
 	}
 	if (e.progress_bad && !failed) { hx_violation("C08", "progress-exceeds-input", idx, "%s; cfg=%s threads=%u bs=%" PRIu64, e.pwhy, cfg.desc, threads, bs); failed = true; }
 	if (!failed && !e.ended_early) {
@@ -438,6 +453,12 @@ static void c08_case(uint64_t idx)
 	lzma_end(&e.s);
 	sched_stats ss; sched_get_stats(&ss);
 	sched_case_end();
+	if (lifecycle == 4) {
+		hx_count(faulted ? "alloc_failure_reported" : "alloc_failure_not_reached", 1);
+		if (mon.live_blocks) hx_violation("C08", "leak-after-allocation-failure|mt_enc", idx, "%" PRIu64 " blocks still allocated after lzma_end (allocation failure plan at=%" PRId64 " from=%" PRId64 "); cfg=%s threads=%u", mon.live_blocks, mon.fail_at, mon.fail_from, cfg.desc, threads);
+		if (mon.errors) hx_violation("C08", "allocator-misuse|mt_enc", idx, "%s; cfg=%s threads=%u", mon.errmsg, cfg.desc, threads);
+	}
+	alloc_mon_destroy(&mon);
 	if (complete) {
 		// single valid Stream decoding to exactly the input
 		lzma_stream d = LZMA_STREAM_INIT; vbuf_clear(&dec);
